@@ -24,6 +24,27 @@ CHECKS = {
         "technique": "TLC-enumerated token strings (I-level = P-level invariant) replayed into the real lexer",
     },
 }
+CHECKS["C03"] = {
+    "text": "Every token string the lexer automaton can read (incl. event headers whose declared lengths sit at 2^32-k, 2^32, 2^63, "
+            "2^64) is run through the real lexer under recover() and, embedded in datagrams, through a real DatagramParser goroutine "
+            "(must survive, count the bad line, still parse the neighbour line); TLC-enumerated sequences of ingestion requests "
+            "(endpoint x encoding x body class) with seeded corruptions go through the real router. EventBodyWrap.tla checks the "
+            "slice arithmetic of lexEventBody on a scaled machine word.",
+    "design_ref": "6/C03",
+    "note": "inputs are enumerated per byte class / body class and concretised by seed; resource exhaustion (decompression bombs) is "
+            "not a crash in the property's sense; net/http's own panic recovery is bypassed (router called directly)",
+    "technique": "TLC-enumerated inputs and request sequences replayed into lexer, DatagramParser and ingestion router under recover()",
+}
+CHECKS["C05"] = {
+    "text": "Datagram.tla states parsing a datagram as the concatenation of its lines (P-level) and models the Go loop and the "
+            "MetricMap.Receive fold (I-level); TLC shows them equal for all datagrams of <= MaxLines pool lines and prints each with "
+            "its expected batch; the real DatagramParser must dispatch exactly that batch, count exactly the rejected lines, and its "
+            "output must not change when the buffer is overwritten or the next datagram is parsed.",
+    "design_ref": "6/C05",
+    "note": "lines are drawn from a 20-line pool tied to Grammar.tla by PoolAgreesWithGrammar; trunc(value/rate) weights of the pool "
+            "are declared in the spec; tag order inside a series is not compared (the statement speaks of sets after parsing)",
+    "technique": "TLC-enumerated datagrams (I-level loop = P-level homomorphism) replayed into the real DatagramParser in a synctest bubble",
+}
 NOT_APPLICABLE = [{"property_id": p, "reason": "check not built yet (build in progress; see DESIGN.md Appendix B for the order)"}
                   for p in ALL if p not in CHECKS]
 ENGINES[0]["serves_properties"] = sorted(CHECKS)
